@@ -35,6 +35,8 @@ def stmt(sf, e):
         "plain": "%s;" % e,
         "if": "if (q == 0) { %s; }" % e,
         "else": "if (q == 1) { q = 0; } else { %s; }" % e,
+        "then_else": "if (q == 0) { %s; } else { q = 1; }" % e,                                   # the then-branch of an if that HAS an else
+        "elseif": "if (q == 2) { q = 0; } else if (q == 0) { %s; } else { q = 1; }" % e,           # ... also as the middle of an else-if chain
         "for_body": "for (q = 0; q < 1; q++) { %s; }" % e,
         "for_init": "for (%s; q < 1; q++) { }" % e,
         "for_step": "for (q = 0; q < 1; %s) { q++; }" % e,
